@@ -32,8 +32,8 @@ def run(ctx):
         import r_c
     except ImportError:
         r_c = None
-    if r_c is not None and hasattr(r_c, "rule_G1c"):
-        ctx.run_rule("G1c", r_c.rule_G1c)
+    if r_c is not None and hasattr(r_c, "rule_G1C"):
+        ctx.run_rule("G1C", r_c.rule_G1C)
     try:
         import r_asm
     except ImportError:
